@@ -23,7 +23,7 @@ func init() {
 }
 
 func runC36(c *core.Ctx) {
-	guardCheck(c, "C36.a", "store/throttler", an.GuardSpec{TypeName: "Throttler", Mutex: "mu", Fields: []string{"delayFactor"}}, 7)
+	guardCheck(c, "C36.a", "store/throttler", an.GuardSpec{TypeName: "Throttler", Mutex: "mu", Fields: []string{"delayFactor"}}, 6)
 
 	// the field is a plain integer
 	if pk := c.P.Pkg("store/throttler"); pk != nil {
@@ -65,8 +65,10 @@ func runC36(c *core.Ctx) {
 	df := func(v ssa.Value) bool { return an.MentionsField(v, "Throttler", "delayFactor") }
 	if fn := c.Fn("C36.b", "store/throttler", "(*Throttler).Signal"); fn != nil {
 		spec := an.DecideSpec{Fn: fn,
-			Vars: []an.Var{an.Sign("levelVsMax"), an.Bool("timer")},
+			Vars: []an.Var{an.Sign("levelVsMax"), an.Bool("timerNil")},
 			Conds: []an.CondMatcher{
+				// the idle-timer restart may be a helper or inline: its nil test is not part of the level logic
+				an.NilCond("timerNil", an.IsFieldLoad("Throttler", "timer")),
 				an.CmpCond("levelVsMax", an.All(df, func(v ssa.Value) bool { _, isB := v.(*ssa.BinOp); return !isB }), func(v ssa.Value) bool {
 					// len(t.delays) - 1
 					b, ok := v.(*ssa.BinOp)
@@ -95,8 +97,8 @@ func runC36(c *core.Ctx) {
 	}
 	if fn := c.Fn("C36.b", "store/throttler", "(*Throttler).Release"); fn != nil {
 		spec := an.DecideSpec{Fn: fn,
-			Vars:  []an.Var{an.Sign("afterSub")},
-			Conds: []an.CondMatcher{an.CmpCond("afterSub", df, an.IsConstInt(0))},
+			Vars:  []an.Var{an.Sign("afterSub"), an.Bool("timerNil")},
+			Conds: []an.CondMatcher{an.CmpCond("afterSub", df, an.IsConstInt(0)), an.NilCond("timerNil", an.IsFieldLoad("Throttler", "timer"))},
 			Effect: func(in ssa.Instruction) (string, bool) {
 				lbl, ok := syncEffects("Throttler")(in)
 				if ok && (strings.HasPrefix(lbl, "delayFactor=") || strings.Contains(lbl, "lock")) {
